@@ -208,6 +208,7 @@ type srvWorld struct {
 	causes    []stopCause
 	arrScan   int
 	started   bool
+	restartSeq int // seq at which the server was started again on a fresh channel (-1)
 	qpoints   []int // sequence numbers of the quiescent points seen so far
 	status    *jrpc2.ServerStatus
 	waitSeq   int
@@ -863,6 +864,7 @@ func (w *srvWorld) setup() {
 	w.sEnd.CloseUnblocks = g.Chance("closeunblocks", 0.5)
 	w.sEnd.OnSend = w.onServerSend
 	w.stopSeq = -1
+	w.restartSeq = -1
 	w.stopDone = -1
 	w.waitSeq = -1
 	w.closeAfter = -1
